@@ -137,6 +137,11 @@ def run(repo, rep, tier):
     filename_chain(repo, rep, "R11.4")
     L.whitelist_rule(repo, rep, "R11.5")
     language_error_guards(repo, rep)
+    # a multi-line expression is valid whatever the document's line ends
+    # are (C20 owns the rewriting of the expression text)
+    from . import c20 as _c20
+    L.borrow(repo, rep, "R11.5", "C20", _c20._lone_value,
+             ("python-line-ends",))
     # the file name is written into the generated module as a literal: it
     # is handed to the compiler as text (the repr of a path object is no
     # literal: the module would not load)
